@@ -424,6 +424,15 @@ def run_retype(prog, ctx=None):
         def edge_hook(an, b, cond, truth, st):
             c = strip(cond, all_casts=True)
             facts = set(st.get(PK) or ())
+            # the test in any spelling: under negations, and as the last operand of the && / || chain this block decides
+            for _ in range(8):
+                if c.get("k") == "un" and c.get("op") == "!":
+                    truth = not truth
+                    c = strip(c["e"], all_casts=True)
+                elif c.get("k") == "bin" and c.get("op") in ("&&", "||"):
+                    c = strip(c["b"], all_casts=True)
+                else:
+                    break
             if c.get("k") == "bin" and c.get("op") in ("!=", "=="):
                 a, bb = strip(c["a"], all_casts=True), strip(c["b"], all_casts=True)
                 equal = (c["op"] == "==") == truth
